@@ -303,11 +303,21 @@ def work(item):
             return prove_all(name, claims, bits, {"fn": fname, "n": n, "E": [list(e) for e in E], "lib": lib, "kind": "flow", "weights": weights})
     except (ValueError, KeyError) as e:
         return [{"name": f"{item[1]} on {item[4]} n={item[2]} E={list(item[3])}", "status": "unsupported", "detail": f"rejected by the library: {e!r}"[:200]}]
+    except (RuntimeError, TypeError, AttributeError, IndexError, RecursionError) as e:
+        # the library raised on a valid graph (or returned something whose Pauli representation cannot be obtained)
+        nm = f"{item[1]} on {item[4]} n={item[2]} E={list(item[3])}"
+        return [{"name": nm, "status": VIOLATED, "signature": f"{item[1]}:raises", "symbols": [], "queries": 0,
+                 "detail": f"the real function raised on a valid graph: {e!r}"[:300],
+                 "replay": {"kind": "raises", "item": [item[0], item[1], item[2], [list(x) for x in item[3]], item[4]], "observed": repr(e)[:200]}}]
     raise KeyError(kind)
 
 
 def replay(p):
     """dense-matrix evaluation of the real Hamiltonian at the model's bitstring"""
+    if p.get("kind") == "raises":
+        it = p["item"]
+        recs = work((it[0], it[1], it[2], tuple(tuple(e) for e in it[3]), it[4]))
+        return recs[0]["status"] == VIOLATED, recs[0].get("detail", "")
     n, E, lib = p["n"], [tuple(e) for e in p["E"]], p["lib"]
     kind, fn = p["kind"], p["fn"]
     if kind == "flow":
